@@ -7,9 +7,7 @@ man = json.load(open(os.path.join(VERIF, "MANIFEST.json")))
 allp = [c["property_id"] for c in man["checks"]]
 args = [a for a in sys.argv[1:] if not a.startswith("--")]
 bad = 0
-ev = os.path.join(VERIF, "evidence")
-bak = tempfile.mkdtemp(prefix="evbak-")
-shutil.copytree(ev, bak + "/e")
+evd = tempfile.mkdtemp(prefix="benign-ev-")
 try:
     for patch in sorted(glob.glob(os.path.join(VERIF, "seeded", "benign", "*.diff"))):
         if args and not any(a in patch for a in args):
@@ -28,7 +26,7 @@ try:
                 shutil.rmtree(os.path.join(work, "target"), ignore_errors=True)
                 if not ok:
                     print("%s: TESTS FAIL (not a benign variant)" % os.path.basename(patch)); bad += 1; continue
-            env = dict(os.environ, VERIF_REPO=work)
+            env = dict(os.environ, VERIF_REPO=work, VERIF_EVIDENCE_DIR=evd)
             alarms = []
             for p in allp:
                 r = subprocess.run([os.path.join(VERIF, "check"), p], env=env, cwd=VERIF, capture_output=True, text=True)
@@ -39,5 +37,5 @@ try:
         finally:
             shutil.rmtree(work, ignore_errors=True)
 finally:
-    shutil.rmtree(ev); shutil.copytree(bak + "/e", ev); shutil.rmtree(bak)
+    shutil.rmtree(evd, ignore_errors=True)
 sys.exit(1 if bad else 0)
